@@ -2097,6 +2097,13 @@ func (x *c03Exec) model(s *c03State, name string, args []c03V) (c03V, string, bo
 			return c03V{K: c03NonNil, G: fmt.Sprintf("hash:%d", h.I)}, "", true
 		}
 		return c03NonNilV(), "", true
+	case "crypto.Hash.Size":
+		if h := arg(0); h.K == c03Int {
+			if n, ok := map[int64]int64{2: 16, 3: 20, 4: 28, 5: 32, 6: 48, 7: 64}[h.I]; ok {
+				return c03IntV(n), "", true
+			}
+		}
+		return c03U(), "", true
 	case "crypto/sha1.New":
 		return c03V{K: c03NonNil, G: "hash:3"}, "", true
 	case "crypto/sha256.New224":
